@@ -98,11 +98,14 @@ func main() {
 		}
 		fmt.Fprintf(out, "{\"start\":%d}\n", rf.Idx)
 		out.Flush()
-		if conc.SaturateFor(rf.Idx - rf.Prefix) {
-			conc.Saturate()
-		}
 		for i := rf.Idx - rf.Prefix; i < rf.Idx; i++ {
+			if conc.SaturateBefore(rf.Idx-rf.Prefix, i) {
+				conc.Saturate()
+			}
 			runOne(rf.Prop, *variant, rf.VerifSeed, i, *nSites, nil, false) // process history only
+		}
+		if conc.SaturateBefore(rf.Idx-rf.Prefix, rf.Idx) {
+			conc.Saturate()
 		}
 		res := runOne(rf.Prop, *variant, rf.VerifSeed, rf.Idx, *nSites, rf.Tape, true)
 		res.JobFrom = rf.Idx - rf.Prefix
@@ -118,13 +121,15 @@ func main() {
 		// runtime stops the process in here)
 		fmt.Fprintf(out, "{\"start\":%d}\n", *from)
 		out.Flush()
-		conc.Saturate()
 	}
 	for i := *from; i < *from+*n; i++ {
 		// the marker tells the driver which run was in flight if the race
 		// detector halts the process
 		fmt.Fprintf(out, "{\"start\":%d}\n", i)
 		out.Flush()
+		if conc.SaturateBefore(*from, i) {
+			conc.Saturate()
+		}
 		res := runOne(*prop, *variant, *seed, i, *nSites, nil, *trace)
 		if len(res.Violations) == 0 && !*keepTape {
 			res.Tape = nil
